@@ -12,7 +12,7 @@ HEADERFS_INITS = [
 HEADERFS_FILES = ["headerfs/store.go", "headerfs/index.go", "headerfs/file.go"]
 
 ROOT_INITS = [
-    "github.com/lightninglabs/neutrino", "github.com/lightninglabs/neutrino/banman", "github.com/btcsuite/btcwallet/walletdb",
+    "github.com/lightninglabs/neutrino...", "github.com/lightninglabs/neutrino/banman", "github.com/btcsuite/btcwallet/walletdb",
     "io", "bytes", "encoding/binary", "github.com/btcsuite/btcd/wire/v2", "github.com/btcsuite/btcd/chainhash/v2",
     "github.com/lightninglabs/neutrino/headerfs", "github.com/lightninglabs/neutrino/chainsync",
     "github.com/lightninglabs/neutrino/query", "github.com/lightninglabs/neutrino/blockntfns", "github.com/lightninglabs/neutrino/cache", "github.com/lightninglabs/neutrino/cache/lru",
@@ -104,7 +104,7 @@ CHECKS = {
              "must_reach": {"VerifH_C13_store": ["ban", "unban", "reopen"], "VerifH_C13_reban": ["second-ban-live", "second-ban-lapsed"],
                             "VerifH_C13_expiryBound": ["well-before-lapse", "after-true-expiry"]},
              "outside": "histories longer than ops (+ the final status sweep); sub-second ban durations; masks other than the defaults"},
-            {"name": "enforce", "pkg": ".", "harness_dir": "root", "common": ["walletdb"], "harness": "VerifH_C13_(onVersion|refuseBanned)",
+            {"name": "enforce", "pkg": ".", "harness_dir": "root", "common": ["walletdb", "stores", "pow"], "harness": "VerifH_C13_(onVersion|refuseBanned)",
              "inits": ROOT_INITS, "anchored_files": ["neutrino.go", "banman/store.go", "banman/util.go"],
              "no_native_replay": "uses the engine's *peer.Peer / connmgr recorders, which have no native counterpart",
              "must_reach": {"VerifH_C13_onVersion": ["services-ok", "services-missing"], "VerifH_C13_refuseBanned": ["banned-peer-refused", "clean-peer-added"]},
@@ -118,13 +118,13 @@ CHECKS = {
             "one funding transaction with two outputs, at most one spend per outpoint; out-of-range output index 2",
         ],
         "groups": [
-            {"name": "scan", "pkg": ".", "harness_dir": "root", "common": ["walletdb"], "harness": "VerifH_C10_scan",
+            {"name": "scan", "pkg": ".", "harness_dir": "root", "common": ["walletdb", "stores", "pow"], "harness": "VerifH_C10_scan",
              "inits": ROOT_INITS, "anchored_files": ["utxoscanner.go", "batch_spend_reporter.go"],
              "params": {"requests": 2, "arrivals": 1, "maxspends": 1},
              "thorough": {"params": {"requests": 2, "arrivals": 2, "maxspends": 2, "inputpos": 1}},
              "must_reach": {"VerifH_C10_scan": ["expect-spend", "expect-unspent-output", "expect-empty", "arrived-after-scan"]},
              "outside": "more than 2 requests / 2 spends, chains longer than 5 blocks, arrival of a request between two instructions of the scanner goroutine (only call boundaries)"},
-            {"name": "stop", "pkg": ".", "harness_dir": "root", "common": ["walletdb"], "harness": "VerifH_C10_scan", "thorough_only": True,
+            {"name": "stop", "pkg": ".", "harness_dir": "root", "common": ["walletdb", "stores", "pow"], "harness": "VerifH_C10_scan", "thorough_only": True,
              "inits": ROOT_INITS, "anchored_files": ["utxoscanner.go", "batch_spend_reporter.go"],
              "params": {"requests": 1, "arrivals": 1, "maxspends": 1, "withStop": 1, "stopPoints": 4},
              "must_reach": {"VerifH_C10_scan": ["stopped", "shutdown-error"]},
@@ -163,6 +163,19 @@ CHECKS = {
              "no_native_replay": "block validity is a symbolic predicate; a native replay would need real blocks with chosen merkle/witness validity",
              "must_reach": {"VerifH_C06_getBlock": ["valid-response-present", "no-valid-response", "expect-ban"]},
              "outside": "more than 3 responses; merkle-root and witness-commitment arithmetic (btcd); the real dispatcher's scheduling (C12)"},
+        ],
+    },
+    "C05": {
+        "assumptions": COMMON_ASSUMPTIONS + [
+            "header stores are the slice models (C07 ties the real stores to them); FilterCache is the released lru cache; FilterDB is a map model behind the real chanutils.BatchWriter/ConcurrentQueue goroutines; the work manager is a stub feeding the response stream to the real handler until it reports Finished",
+            "filters are 3-byte GCS payloads (N=1 + two bytes, one symbolic); gcs.FromNBytes, builder.GetFilterHash and MakeHeaderForFilter run as real SSA over the injective hash model",
+        ],
+        "groups": [
+            {"name": "getcfilter", "pkg": ".", "harness_dir": "root", "common": ["walletdb", "stores", "pow"], "harness": "VerifH_C05_getCFilter",
+             "inits": ROOT_INITS, "anchored_files": ["query.go", "cacheable_filter.go", "chanutils/batch_writer.go", "filterdb/db.go"],
+             "params": {"maxresponses": 2, "blocks": 3, "kinds": 5, "caps": 0}, "thorough": {"params": {"maxresponses": 3, "blocks": 3, "kinds": 5, "caps": 1}},
+             "must_reach": {"VerifH_C05_getCFilter": ["filter-returned", "call-failed", "cached", "persisted", "target-above-filter-tip"]},
+             "outside": "more than 3 blocks / 3 responses; batch caps other than none/2; GCS decoding beyond N-prefix parsing; concurrent GetCFilter callers (single-flight mutex)"},
         ],
     },
 }
